@@ -36,6 +36,7 @@ from pynetdicom.dimse_primitives import (
     N_ACTION,
     N_DELETE,
     DimseServiceType,
+    DIMSEPrimitive,
 )
 from pynetdicom.dsutils import decode, encode, pretty_dataset, split_dataset
 from pynetdicom.dul import DULServiceProvider
@@ -317,7 +318,9 @@ class Association(threading.Thread):
             self.bind(evt.EVT_PDU_RECV, standard_pdu_recv_handler)
             self.bind(evt.EVT_PDU_SENT, standard_pdu_sent_handler)
 
-    def _check_received_status(self, rsp: DimseServiceType) -> Dataset:
+    def _check_received_status(
+        self, rsp: DimseServiceType, req: "DimseServiceType | None" = None
+    ) -> Dataset:
         """Return a :class:`~pydicom.dataset.Dataset` containing status
         related elements.
 
@@ -326,6 +329,9 @@ class Association(threading.Thread):
         rsp : dimse_primitives.DIMSEMessage
             The DIMSE Message primitive received from the peer in response
             to a service request.
+        req : dimse_primitives.DIMSEMessage, optional
+            The service request, if supplied then a response with a different
+            message type is invalid.
 
         Returns
         -------
@@ -341,7 +347,13 @@ class Association(threading.Thread):
         msg_type = msg_type.replace("_", "-")
 
         status = Dataset()
-        if rsp.is_valid_response:
+        # A DIMSE primitive for a different service isn't a response to `req`
+        is_expected = not (
+            req is not None
+            and isinstance(rsp, DIMSEPrimitive)
+            and type(rsp) is not type(req)
+        )
+        if is_expected and rsp.is_valid_response:
             status.Status = rsp.Status
             for keyword in rsp.STATUS_OPTIONAL_KEYWORDS:
                 if getattr(rsp, keyword, None) is not None:
@@ -1059,7 +1071,7 @@ class Association(threading.Thread):
             return Dataset()
 
         # Determine validity of the response and get the status
-        status = self._check_received_status(rsp)
+        status = self._check_received_status(rsp, primitive)
 
         return status
 
@@ -1977,7 +1989,7 @@ class Association(threading.Thread):
             return Dataset()
 
         # Determine validity of the response and get the status
-        status = self._check_received_status(rsp)
+        status = self._check_received_status(rsp, req)
 
         return status
 
@@ -2429,7 +2441,7 @@ class Association(threading.Thread):
             return Dataset(), None
 
         # Determine validity of the response and get the status
-        status = self._check_received_status(rsp)
+        status = self._check_received_status(rsp, req)
 
         # Warning and Success statuses will return a dataset
         #   we check against None as 0x0000 is a possible status
@@ -2666,7 +2678,7 @@ class Association(threading.Thread):
             return Dataset(), None
 
         # Determine validity of the response and get the status
-        status = self._check_received_status(rsp)
+        status = self._check_received_status(rsp, req)
 
         # Warning and Success statuses will return a dataset
         #   we check against None as 0x0000 is a possible status
@@ -2815,7 +2827,7 @@ class Association(threading.Thread):
             return Dataset()
 
         # Determine validity of the response and get the status
-        status = self._check_received_status(rsp)
+        status = self._check_received_status(rsp, req)
 
         return status
 
@@ -2996,7 +3008,7 @@ class Association(threading.Thread):
             return Dataset(), None
 
         # Determine validity of the response and get the status
-        status = self._check_received_status(rsp)
+        status = self._check_received_status(rsp, req)
 
         # Warning and Success statuses will return a dataset
         #   we check against None as 0x0000 is a possible status
@@ -3203,7 +3215,7 @@ class Association(threading.Thread):
             return Dataset(), None
 
         # Determine validity of the response and get the status
-        status = self._check_received_status(rsp)
+        status = self._check_received_status(rsp, req)
 
         # Warning and Success statuses will return a dataset
         #   we check against None as 0x0000 is a possible status
@@ -3453,7 +3465,7 @@ class Association(threading.Thread):
             return Dataset(), None
 
         # Determine validity of the response and get the status
-        status = self._check_received_status(rsp)
+        status = self._check_received_status(rsp, req)
 
         # Warning and Success statuses will return a dataset
         #   we check against None as 0x0000 is a possible status
